@@ -253,6 +253,23 @@ func c08URL(c *Ctx) {
 	r.Check(nSub > 0 && badSub == "", "R08b", "TS client percent-encodes every path substitution", cpos,
 		"the TS client substitutes a path variable without encodeURIComponent ("+strings.TrimSpace(badSub)+"): a value containing / ? # or % reaches a different route or is cut")
 	r.Check(usp, "R08b", "TS client builds the query string with URLSearchParams", cpos, "the TS client does not build the query with URLSearchParams (values would not be encoded)")
+	// the Go client: every path substitution is url.PathEscape'd (QueryEscape turns a space into '+',
+	// which neither r.PathValue nor decodeURIComponent turns back)
+	if gl, gpos := c.unitLines(pkgClient, "_client.pb.go"); gl != nil {
+		nG, badG := 0, ""
+		for _, l := range gl {
+			t := lineText(l.Segs)
+			if strings.Contains(t, "strings.Replace(path,") || strings.Contains(t, "strings.ReplaceAll(path,") {
+				nG++
+				if !strings.Contains(t, "url.PathEscape(") && badG == "" {
+					badG = holeFree(t)
+					gpos = c.P.Pos(l.Pos)
+				}
+			}
+		}
+		r.Check(nG > 0 && badG == "", "R08b", "Go client percent-encodes every path substitution with url.PathEscape", gpos,
+			"the Go client substitutes a path variable without url.PathEscape ("+strings.TrimSpace(badG)+"): the Go and TS servers decode path segments, not form encoding, so the handler receives a different value (a space arrives as '+')")
+	}
 	nExt, badExt := 0, ""
 	for _, l := range sl {
 		t := lineText(l.Segs)
